@@ -825,6 +825,23 @@ w('C16', 'token pairs accumulator reset by re-slicing a buffer captured from Exp
   (HG, '\tvar bridges []types.Bridge\n', '\tvar bridges []types.Bridge\n\tvar tpBuf []types.TokenPair\n'),
   (HG, '\t\tvar tokenPairs []types.TokenPair\n', '\t\ttokenPairs := tpBuf[:0]\n'),
   (HG, '\t\tbridges = append(bridges, types.Bridge{', '\t\ttpBuf = tokenPairs\n\t\tbridges = append(bridges, types.Bridge{'))
+HI='x/opchild/keeper/historical_info.go'
+w('C13', 'historical pruning starts one height too low (one extra record survives)', 'C13.R9',
+  (HI, 'for i := sdkCtx.BlockHeight() - int64(entryNum); i >= 0; i-- {', 'for i := sdkCtx.BlockHeight() - int64(entryNum) - 1; i >= 0; i-- {'))
+w('C13', 'historical pruning removes at most one record per block', 'C13.R9',
+  (HI, '\t\tif err := k.DeleteHistoricalInfo(ctx, i); err != nil {\n\t\t\treturn err\n\t\t}\n', '\t\tif err := k.DeleteHistoricalInfo(ctx, i); err != nil {\n\t\t\treturn err\n\t\t}\n\t\tbreak\n'))
+w('C13', 'historical record lists all stored validators instead of the bonded set', 'C13.R9',
+  (HI, 'lastVals, err := k.GetLastValidators(ctx)', 'lastVals, err := k.GetAllValidators(ctx)'))
+w('C13', 'historical record stored under the previous height', 'C13.R9',
+  (HI, 'return k.SetHistoricalInfo(ctx, sdkCtx.BlockHeight(), &historicalEntry)', 'return k.SetHistoricalInfo(ctx, sdkCtx.BlockHeight()-1, &historicalEntry)'))
+w('C13', 'historical record written even with retention 0', 'C13.R9',
+  (HI, '\tif entryNum == 0 {\n\t\treturn nil\n\t}\n', ''))
+w('C13', 'historical record skips the first bonded validator', 'C13.R9',
+  (HI, 'for _, v := range lastVals {', 'for _, v := range lastVals[min(1, len(lastVals)):] {'))
+w('C13', 'RemoveValidator marks removal with power -1', 'C13.R10',
+  (CM, '\tval.ConsPower = 0\n', '\tval.ConsPower = -1\n'))
+w('C13', 'BENIGN: prune start computed into a local before the loop', '',
+  (HI, 'for i := sdkCtx.BlockHeight() - int64(entryNum); i >= 0; i-- {', 'pruneFrom := sdkCtx.BlockHeight() - int64(entryNum)\n\tfor i := pruneFrom; i >= 0; i-- {'))
 #@@SEEDS@@
 #@@MORE@@
 for p,l in W.items():
